@@ -182,7 +182,7 @@ func TestReplay(t *testing.T) {
 	if err != nil {
 		t.Fatalf("cannot load %s: %v", p, err)
 	}
-	if strings.HasPrefix(env.Test, "TestC01Stress") || strings.HasPrefix(env.Test, "TestC01LongWaiter") || strings.HasPrefix(env.Test, "TestC05") {
+	if strings.HasPrefix(env.Test, "TestC01Stress") || strings.HasPrefix(env.Test, "TestC04Redis") || strings.HasPrefix(env.Test, "TestC01LongWaiter") || strings.HasPrefix(env.Test, "TestC05") {
 		replayOther(t, env, p)
 		return
 	}
